@@ -215,13 +215,43 @@ def add_relations(r, spec, wellformed):
 
 
 def mutate_spec(r, spec):
-    """a model change: rename a class, add / remove an operation or attribute, toggle read-only"""
+    """a model change: rename a class, add / remove an operation or attribute, toggle read-only, add / remove a realisation,
+    add / remove an association"""
     s = copy.deepcopy(spec)
     cs = [c for c in s["classes"] if c["kind"] != "enum"]
     if not cs:
         return s, "none"
     c = r.choice(cs)
-    k = r.randrange(5)
+    k = r.randrange(8)
+    if k == 5 and s.get("inherits"):
+        del s["inherits"][r.randrange(len(s["inherits"]))]      # the operations taken over from the interface go with it
+        return s, "remove-inheritance"
+    if k == 6:
+        n = len(s["classes"])
+        pairs = [(b, d) for b in range(n) for d in range(n) if s["classes"][b]["kind"] == "interface" and s["classes"][d]["kind"] == "class"
+                 and not any(h["frm"] == b and h["to"] == d for h in s.get("inherits", []))]
+        if pairs:
+            b, d = r.choice(pairs)
+            s.setdefault("inherits", []).append(dict(frm=b, to=d, realization=True))
+            for i in range(n):
+                allsigs = sorted(_sigs(s["classes"][i])) + inherited_sigs(s, i)
+                if len(allsigs) != len(set(allsigs)):
+                    s["inherits"].pop()
+                    break
+        return s, "add-realization"
+    if k == 7:
+        if s.get("assocs") and r.random() < 0.5:
+            del s["assocs"][r.randrange(len(s["assocs"]))]
+            return s, "remove-association"
+        n = len(s["classes"])
+        holders = [i for i in range(n) if s["classes"][i]["kind"] == "class"]
+        targets = [i for i in range(n) if s["classes"][i]["kind"] in ("class", "interface", "struct")]
+        if holders and targets:
+            a, b = r.choice(holders), r.choice(targets)
+            if not any(x["frm"] == a and x["to"] == b or x["frm"] == b and x["to"] == a for x in s.get("assocs", [])):
+                s.setdefault("assocs", []).append(dict(frm=a, to=b, type=r.choice(["Association", "Aggregation"]), name="", doc="", from_mult=r.choice(["0..1", "*"]),
+                                                       to_mult="0..1", from_vis="private", to_vis="private", from_getter=True, from_setter=False, to_getter=False, to_setter=False))
+        return s, "add-association"
     if k == 0:
         old = c["name"]
         c["name"] = old + "X"
